@@ -1911,6 +1911,10 @@ def feature_lattices() -> list:
             out.append(("bmad:assign", mk([q1, q2, d1, {"k": "assign", "target": "q1", "prop": "k1", "expr": ["n", "0.7"]}])))
             out.append(("bmad:wildcard*", mk([q1, q2, d1, {"k": "assign", "target": "quadrupole::q*", "prop": "k1", "expr": ["n", "0.7"]}])))
             out.append(("bmad:wildcard%", mk([q1, q2, d1, {"k": "assign", "target": "quadrupole::q%", "prop": "k1", "expr": ["n", "0.7"]}])))
+            # the right-hand side of a wildcard assignment may mention one of the matched elements: it is evaluated once, before
+            # any of them is written (q1 first in the dictionary, so a per-element evaluation would show on q2)
+            out.append(("bmad:wildcard* self-reference", mk([q1, q2, d1, {"k": "assign", "target": "quadrupole::q*", "prop": "k1",
+                                                                          "expr": ["b", "*", ["n", "2"], ["a", "q1", "k1"]]}])))
             # a wildcard pattern selects the names it matches as a whole (q1, not q1a / q12)
             q1a = {**q2, "name": "q1a"}
             q12 = {**q2, "name": "q12"}
